@@ -43,10 +43,10 @@ var spxProps = map[string][]string{
 	"C10": {"S3", "S4", "S13"},
 	"C17": {"S1", "S2", "S3", "S4", "S9", "S10", "S13", "S14", "S16", "S17", "S18"},
 	"C18": {"S1", "S6", "S12"},
-	"C02": {"S5", "S8", "S12"},
+	"C02": {"S5", "S8", "S12", "S19"},
 	"C07": {"S8"},
 	"C11": {"S7", "S15"},
-	"C12": {"S5", "S6", "S7", "S8", "S11", "S12", "S15"},
+	"C12": {"S5", "S6", "S7", "S8", "S11", "S12", "S15", "S19"},
 }
 
 func spxScenarioFor(name string) *spxScenario {
@@ -505,7 +505,7 @@ func spxClientRules(x *spxInst, sc *spxScenario, prop string, add func(rule, sha
 	// what the script answered, per stream
 	answered := map[uint32]string{}
 	switch short {
-	case "S5":
+	case "S5", "S19":
 		answered[3], answered[5] = "first", "second"
 	case "S6":
 		answered[3] = "late"
@@ -533,7 +533,7 @@ func spxClientRules(x *spxInst, sc *spxScenario, prop string, add func(rule, sha
 				if paths[p] > 1 {
 					add("request-sent-twice", "", fmt.Sprintf("%s reached the servers on %d streams", p, paths[p]))
 				}
-				if p != "/warm" && (short == "S5" || short == "S12") {
+				if p != "/warm" && (short == "S5" || short == "S12" || short == "S19") {
 					if hdrVal(st.Fields, ":method") != "POST" || hdrVal(st.Fields, "x-common") != "the-same-value-every-time" || hdrVal(st.Fields, ":scheme") != "https" {
 						add("request-not-intact", "fields", fmt.Sprintf("connection %d stream %d: the server received %v", ci, id, st.Fields))
 					}
